@@ -366,13 +366,13 @@ func safeMapBig(c *kit.Case, r *kit.Rand, shape int) {
 
 func safeMapFamilies(t *testing.T) {
 	const sb = 25
-	kit.Run(t, "C16", "safemap-small", kit.N(48, 2400), func(c *kit.Case) {
+	kit.Run(t, "C16", "safemap-small", kit.N(120, 2400), func(c *kit.Case) {
 		for h := 0; h < sb && !c.Violated(); h++ {
 			safeMapSmall(c, c.R, c.Index == 0 && h == 0)
 		}
 		c.Evals(sb)
 	})
-	kit.Run(t, "C16", "safemap-big", kit.N(48, 1600), func(c *kit.Case) {
+	kit.Run(t, "C16", "safemap-big", kit.N(120, 2000), func(c *kit.Case) {
 		safeMapBig(c, c.R, c.Index)
 	})
 }
